@@ -13,6 +13,7 @@ RULE = ("Model-based history generation: Hypothesis draws a rank-planted problem
         "regularisation and asked only that question (1e-9 relative), and x/rtr/defect/q_xx additionally with the numpy reference. "
         "Non-trivial = history with >=3 kinds of query and one of {>=4 distinct q_xx keys (cache eviction), min_x change after a "
         "cofactor query, reset after queries, q0_xx interleaved with q_xx on a singular system, algorithm switch}; distinct by sha1. "
+        "Part history_large: the same histories on graph-structured sparse problems with 10-22 unknowns (envelope profiles with gaps, several components). "
         "Network part: histories over a LocalNetwork object (see 'net').")
 ASSUMPTIONS = ["min_x(S') is issued with subsets that numpy confirms to resolve the defect, or with fewer indexes than the defect (certainly insufficient: the answer is an exception, the same for a fresh object); other non-resolving subsets belong to C02/C20",
                "q_bx is never called (AdjEnvelope documents it as not implemented)"]
@@ -20,8 +21,8 @@ REQUIRED_CLASSES = ["kind=adj", "kind=raw", "singular", "evict", "minx_after_q",
 
 
 @st.composite
-def history(draw):
-    case = draw(gen_linear.linear_problem(max_n=9, max_extra=6))
+def history(draw, large=False):
+    case = draw(gen_linear.graph_problem(min_n=10, max_n=22) if large else gen_linear.linear_problem(max_n=9, max_extra=6))
     n, m = case["n"], case["m"]
     kind = draw(st.sampled_from(["adj", "raw", "raw"]))
     alg = draw(st.sampled_from(ALGS))
@@ -464,6 +465,8 @@ def oracle_svd(h, stats):
 PARTS = [
     Part("history", strategy=history, oracle=oracle, nontrivial=is_nontrivial,
          n={"quick": 6000, "thorough": 40000}),
+    Part("history_large", strategy=lambda: history(large=True), oracle=oracle, nontrivial=is_nontrivial,
+         n={"quick": 1500, "thorough": 12000}),
     Part("svdclass", strategy=svd_history, oracle=oracle_svd, n={"quick": 2000, "thorough": 20000},
          nontrivial=lambda h: h["case"]["d"] > 0 and any(op[0] in SVD_STATE for op in h["ops"])),
     Part("net", strategy=net_history, oracle=oracle_net, n={"quick": 800, "thorough": 8000},
